@@ -35,7 +35,7 @@ func main() {
 	r.Supervise() // a panic in the queue's event loop (send on / close of a closed channel) kills the process: observed by the parent
 	r.Rule("layer 1: seeded queue scripts (2 tables, revisions incl. 0 and duplicates, background / cancelled / short-deadline contexts, pauses of 0.1-1.3 s so that cancellations straddle the periodic sweep) judged at barriers; " +
 		"layer 2: ForwardingKVServer cases (leader stub revision incl. 0, leader errors, notification before / after the waiter is added, cancellation while waiting); layer 3: follower-API writes followed by same-node serializable reads. " +
-		"Non-trivial: a script in which live and cancelled waiters coexist across >=2 sweeps with >=3 queued waiters on one table, or which contains revision 0; distinct by script seed")
+		"Non-trivial: a script in which live and cancelled waiters coexist across >=2 sweeps with >=3 queued waiters on one table, or which contains revision 0, or a deep-heap script (5-13 waiters on one table arriving in random revision order, a random subset cancelled before a sweep, then the applied index advanced revision by revision with a barrier check each time); distinct by script seed")
 	r.Assume("each waiter channel is read the way the server reads it (one receive); a waiter's context error is the only acceptable non-nil answer",
 		"'answered once the deadline or cancellation passes' is checked as: answered within 3 sweep periods after quiescence, re-examined once after 3x that bound")
 	if r.Replay != "" {
